@@ -718,7 +718,10 @@ ssize_t ZCK_PUBLIC_API zck_get_chunk_comp_data(zckChunk *idx, char *dst,
     if(!seek_data(zck, zck_get_chunk_start(idx), SEEK_SET))
         return -1;
 
-    /* Return read chunk */
+    /* Return read chunk; a larger buffer still gets this chunk only */
+    if(zck_get_chunk_comp_size(idx) >= 0 &&
+       dst_size > (size_t)zck_get_chunk_comp_size(idx))
+        dst_size = zck_get_chunk_comp_size(idx);
     return read_data(zck, dst, dst_size);
 }
 
@@ -780,5 +783,8 @@ ssize_t ZCK_PUBLIC_API zck_get_chunk_data(zckChunk *idx, char *dst,
     if(!hash_init(zck, &(zck->check_chunk_hash), &(zck->chunk_hash_type)))
         return -1;
     zck->comp.data_idx = idx;
+    /* A larger buffer still gets this chunk only, not the ones behind it */
+    if(dst_size > (size_t)zck_get_chunk_size(idx))
+        dst_size = zck_get_chunk_size(idx);
     return comp_read(zck, dst, dst_size, 1);
 }
